@@ -3,8 +3,9 @@
    offsets into their base buffer, lists / tuples / wrapper objects as cells), the argument references, the
    flags of the documented in-place parameters and the set of heap objects the IMPLEMENTATION changed
    (byte + identity snapshots before/after).  For a modelled entry point the skeleton is executed on that very
-   heap and its footprint must equal the observed one exactly; in every case the observed footprint must stay
-   inside the region reachable from the documented in-place arguments (computed here, not by the harness). *)
+   heap and its footprint must equal the observed one exactly; the observed footprint must stay inside the region
+   reachable from the documented in-place arguments (computed here, not by the harness) unless the skeleton itself
+   is rejected by `safe_with flags` (it then models a known defect of the code as it is). *)
 From Coq Require Import List Arith ZArith Bool.
 From TLV Require Import Model.Effects Corr.Common.
 Import ListNotations.
@@ -12,7 +13,12 @@ Import ListNotations.
 Inductive skel :=
 | KInitCp | KParafac | KHalsNnls | KNnParafacHals | KInitTucker | KTucker | KFlipSign | KPermute
 | KKhatriRaoMask | KActiveSet | KModeDotCopy | KModeDotVecInplace | KModeDotMatInplace | KP2Slices | KPlsrFit
-| KCpNormalizeMethod | KTuckerNormalizeMethod.
+| KCpNormalizeMethod | KTuckerNormalizeMethod
+| KPrw (nr ns dg : list nat) (mx : nat)
+| KParafacN (N sweeps fmlen : nat) (rm : option nat) (modes : list nat)
+| KHalsN (N sweeps sclen fmlen : nat) (fixed modes : list nat)
+| KTuckerN (N sweeps : nat) (modes : list nat)
+| KInitCpN (N : nat) | KInitTuckerN (N : nat).
 
 Definition skeleton (k : skel) : cmd :=
   match k with
@@ -33,6 +39,12 @@ Definition skeleton (k : skel) : cmd :=
   | KPlsrFit => sk_cp_plsr_fit
   | KCpNormalizeMethod => sk_cp_normalize_method
   | KTuckerNormalizeMethod => sk_tucker_normalize_method
+  | KPrw nr ns dg mx => sk_prw nr ns dg mx
+  | KParafacN N sweeps fmlen rm modes => sk_parafac_gen N sweeps fmlen rm modes
+  | KHalsN N sweeps sclen fmlen fixed modes => sk_nn_parafac_hals_gen N sweeps sclen fmlen fixed modes
+  | KTuckerN N sweeps modes => sk_tucker_gen N sweeps modes
+  | KInitCpN N => sk_initialize_cp_gen N
+  | KInitTuckerN N => sk_initialize_tucker_gen N
   end.
 
 (* objects reachable from the in-place arguments (fuel = heap size suffices: each round adds the children) *)
@@ -55,10 +67,14 @@ Definition case := (nat * option skel * list bool * list ref * heap * list nat)%
 
 Definition agree (c : case) : bool :=
   let '(_, k, flags, args, h, observed) := c in
-  forallb (fun o => memb o (inplace_region h args flags)) observed &&
   match k with
-  | None => true
-  | Some s => nat_list_eqb (footprint (skeleton s) args h) observed
+  | None => forallb (fun o => memb o (inplace_region h args flags)) observed
+  | Some s =>
+      (* a modelled entry point: the skeleton's footprint is the prediction.  When the skeleton is safe for these
+         flags the prediction lies inside the in-place region by C15_frame_inplace; a skeleton that models a
+         known defect of the code as it is (not safe) predicts the writes outside it. *)
+      nat_list_eqb (footprint (skeleton s) args h) observed &&
+      (negb (safe_with flags (skeleton s)) || forallb (fun o => memb o (inplace_region h args flags)) observed)
   end.
 Definition ident (c : case) : nat := let '(i, _, _, _, _, _) := c in i.
 Definition failing := failing_ids agree ident.
